@@ -459,6 +459,10 @@ func ded(vm didtypes.VerificationMethod) didtypes.VerificationRelationship {
 
 // genDoc builds a (mostly valid) document for identity id listing a random selection of its keys in
 // random roles; returns the doc and the vmID->key map of authentication methods.
+// foreignControllers: DIDs of the other identities of the history. A verification method's `controller` is a free field
+// (nothing ties it to the document's id), so now and then a key names another — existing — DID as its controller.
+var foreignControllers []string
+
 func genDoc(rng *rand.Rand, docID string, idt *didIdent) (*didtypes.DIDDocument, map[string]*didKey) {
 	auth := map[string]*didKey{}
 	var vms []*didtypes.VerificationMethod
@@ -470,7 +474,11 @@ func genDoc(rng *rand.Rand, docID string, idt *didIdent) (*didtypes.DIDDocument,
 		}
 		vmID := fmt.Sprintf("%s#key%d", docID, i+1)
 		typ := types[rng.Intn(len(types))]
-		vm := didtypes.VerificationMethod{Id: vmID, Type: typ, Controller: docID, PublicKeyBase58: k.b58}
+		ctl := docID
+		if len(foreignControllers) > 0 && rng.Intn(4) == 0 {
+			ctl = foreignControllers[rng.Intn(len(foreignControllers))]
+		}
+		vm := didtypes.VerificationMethod{Id: vmID, Type: typ, Controller: ctl, PublicKeyBase58: k.b58}
 		switch rng.Intn(6) {
 		case 0, 1: // method + referenced under authentication
 			v := vm
@@ -591,6 +599,10 @@ func mutateDoc(rng *rand.Rand, d *didtypes.DIDDocument) *didtypes.DIDDocument {
 
 func didHistory(e *didEnv, rng *rand.Rand, idents []*didIdent, relayers []string, steps int) {
 	e.reset()
+	foreignControllers = nil
+	for _, it := range idents {
+		foreignControllers = append(foreignControllers, it.did)
+	}
 	for _, it := range idents {
 		it.seq, it.exists, it.dead, it.authKey, it.lastDoc = 0, false, false, nil, nil
 	}
